@@ -2049,3 +2049,45 @@ def r16_12(rep):
     functions that have no binding any more, or does not compile (seeded change)."""
     import c11
     c11.r11_9(rep)
+
+
+@RULES.rule("R16.13", "the name the C serialiser writes for a typedef is the name C knows it by", floor=5)
+def r16_13(rep):
+    """`CSerialize for Type` writes `Type::name()` for a typedef.  That is only C's name for it if `Type::from_clang_ty` stores what
+    libclang spelled: every value assigned to the `name` handed to `Type::new` must come from a `spelling()` call (or be a fixed
+    ObjC name), and the stored string must not be edited afterwards."""
+    prog = rep.prog
+    b = rep.need(prog.fn("ir::ty::Type::from_clang_ty"), "Type::from_clang_ty")
+    news = [c for c in b.calls(lambda x: (x.get("callee") or "").endswith("ty::Type::new"))]
+    rep.need(news, "Type::new in from_clang_ty")
+    a0 = strip(news[-1]["args"][0])
+    rep.need(a0.get("k") == "Local", "the name local handed to Type::new")
+    nid = a0["id"]
+
+    def is_name(x):
+        x = strip(x)
+        while x.get("k") in ("Unary", "Field", "MCall") and x.get("k") != "Local":
+            x = strip(x.get("e") or x.get("base") or x.get("recv") or {})
+        if x.get("k") != "Local":
+            return False
+        if x["id"] == nid:
+            return True
+        d = b.local_def.get(x["id"])
+        # `if let Some(ref mut name) = name`
+        return bool(d and d[0][0] in ("letcond", "arm", "let") and strip(d[0][1].get("init") or d[0][1].get("scrut") or {}).get("id") == nid)
+    n = 0
+    for x in b.nodes:
+        if x["k"] == "Assign" and is_name(x["l"]):
+            n += 1
+            src = b.canon(x["r"], 6)
+            ok = "::spelling(" in src or "ObjCInterface::rust_name" in src or "lit:'id'" in src or ("Option::<T>::filter(" in src) or "None" == src.split("::")[-1]
+            rep.check(ok, "typedef-name-from-clang@L%s" % ("spelling" if "spelling" in src else src.split("(")[0].split("::")[-1][:20]),
+                      "assigned from `%s`" % src[:70] if ok else "`name` is assigned `%s`, which is not a spelling reported by libclang" % src[:80], b.loc(x))
+        elif (x["k"] == "AssignOp" and is_name(x["l"])) or \
+                (x["k"] == "MCall" and x["name"] in ("push_str", "push", "insert_str", "insert", "truncate", "make_ascii_lowercase", "make_ascii_uppercase", "clear", "replace_range")
+                 and is_name(x["recv"])):
+            n += 1
+            rep.bad("c-name-edited@Type::from_clang_ty",
+                    "the stored name is edited in place (`%s`): the C wrapper of a function taking this typedef names a type C has never "
+                    "heard of" % b.canon(x, 4)[:80], b.loc(x))
+    rep.need(n >= 5, "assignments to the name local")
